@@ -836,7 +836,7 @@ impl DiscoveryDB {
 }
 
 // Verification hooks: simulated time and read-only views of private state.
-#[cfg(rustdds_verif)]
+#[cfg(all(rustdds_verif, any(not(rustdds_verif_only), rustdds_verif_c11, rustdds_verif_c12)))]
 impl DiscoveryDB {
   /// Makes every stored participant life sign `d` older, i.e. lets `d` of
   /// simulated time pass without sleeping.
